@@ -63,3 +63,31 @@ void h_SkipContainer(void) { uint8_t *data; size_t pos, len; uint8_t l, r; (void
 #ifdef UNIT_SkipLiteral
 void h_SkipLiteral(void) { uint8_t *data; size_t pos, len; uint8_t t; (void)SkipLiteral(data, pos, len, t); CANARY(); }
 #endif
+
+#if defined(UNIT_SkipString) && defined(SKIPSTRING_EXACT)
+/* bounded functional check (used by C15: both instantiations against the same scalar oracle => identical results):
+ * SkipString finds exactly the first unescaped quote at or after pos */
+#ifndef LMAX
+#define LMAX (2 * VEC_LEN + 8)
+#endif
+uint8_t in_data[LMAX]; size_t in_len, in_pos;
+void h_SkipString_exact(void) {
+  /* SkipString only ever uses data + pos and len - pos, and its blocks start at pos: pos = 0 is without loss of generality */
+  size_t len, pos0 = 0; __CPROVER_assume(len <= LMAX); in_len = len; in_pos = pos0;
+  uint8_t *data = malloc(len); __CPROVER_assume(data != NULL);             /* exact-size, unpadded */
+  for (size_t i = 0; i < LMAX; i++) if (i < len) in_data[i] = data[i];
+  /* oracle, RFC 8259 section 7: a backslash escapes the next byte; the literal ends at the first quote that is not escaped */
+  int want = 0; size_t wpos = 0; _Bool esc = 0, skip = 0, done = 0;
+  for (size_t i = 0; i < LMAX; i++) if (i >= pos0 && i < len && !done) {
+    if (skip) { skip = 0; }
+    else if (in_data[i] == '\\') { esc = 1; skip = 1; }
+    else if (in_data[i] == '"') { want = esc ? 2 : 1; wpos = i + 1; done = 1; }
+  }
+  size_t pos = pos0;
+  int r = SkipString(data, pos, len);
+  VASSERT((r != 0) == (want != 0), "C15.skipstring.closed: a closing quote is found exactly when an unescaped quote exists");
+  VASSERT(r == 0 || pos == wpos, "C15.skipstring.pos: pos' is one past the first unescaped quote");
+  VASSERT(want != 2 || r == 2, "C15.skipstring.escaped: a literal containing a backslash is reported as escaped");
+  CANARY();
+}
+#endif
